@@ -1,7 +1,14 @@
+#[cfg(not(mainline_verif))]
 use std::collections::HashMap;
 use std::net::SocketAddrV4;
 use std::num::NonZeroUsize;
+#[cfg(not(mainline_verif))]
 use std::time::{Duration, Instant};
+#[cfg(mainline_verif)]
+use {
+    crate::verif::{HashMap, Instant},
+    std::time::Duration,
+};
 
 use lru::LruCache;
 use tracing::error;
@@ -484,6 +491,39 @@ impl Core {
                 }
             }
         };
+    }
+}
+
+#[cfg(mainline_verif)]
+pub(crate) fn verif_request_kind(request_type: &RequestTypeSpecific) -> u8 {
+    match request_type {
+        RequestTypeSpecific::FindNode(_) => 0,
+        RequestTypeSpecific::GetPeers(_) => 1,
+        RequestTypeSpecific::GetSignedPeers(_) => 2,
+        RequestTypeSpecific::GetValue(_) => 3,
+        RequestTypeSpecific::Ping => 4,
+        RequestTypeSpecific::Put(_) => 5,
+    }
+}
+
+#[cfg(mainline_verif)]
+impl Core {
+    pub(crate) fn verif_cached_snapshot(&self) -> Vec<crate::verif::CachedQuerySnap> {
+        self.cached_iterative_queries
+            .iter()
+            .map(|(target, cached)| crate::verif::CachedQuerySnap {
+                target: *target.as_bytes(),
+                kind: verif_request_kind(&cached.request_type),
+                dht_size_estimate: cached.dht_size_estimate,
+                responders_dht_size_estimate: cached.responders_dht_size_estimate,
+                subnets: cached.subnets,
+                closest_responding_nodes: cached
+                    .closest_responding_nodes
+                    .iter()
+                    .map(|n| n.verif_snapshot())
+                    .collect(),
+            })
+            .collect()
     }
 }
 
